@@ -10,7 +10,7 @@ from typing import Dict, List, Optional
 
 from sa.consteval import fold_class
 from sa.kernels import MODULE, Kernel, extract, method_name
-from sa.loader import AnalysisError, Unsupported, norm_text
+from sa.loader import AnalysisError, Unsupported, norm_text, dotted_name
 from sa.report import where
 
 DT = 'torchtree.evolution.datatype'
@@ -255,6 +255,67 @@ def check_assembly(ctx, rep):
               "transition matrices must be p_t(branch quantity × site-model rate)")
 
 
+def counter_keys_are_raw_columns(fn, counter='count_dict'):
+    """(True/False/None, facts): the keys of the pattern counter are the alignment columns themselves — `Counter(zip(*S))` (possibly inside list()/tuple()),
+    or incremental `counter[K] += 1` with K the loop variable of `for K in zip(*S)` (or tuple(K)); any key computed from the column by another function
+    (an encoding, a case fold, a translation) merges columns whose symbols differ."""
+    q = lambda e: ast.unparse(e)
+
+    def strip(e):
+        while isinstance(e, ast.Call) and isinstance(e.func, ast.Name) and e.func.id in ('list', 'tuple', 'iter') and len(e.args) == 1:
+            e = e.args[0]
+        return e
+
+    def is_columns(e):
+        e = strip(e)
+        return isinstance(e, ast.Call) and isinstance(e.func, ast.Name) and e.func.id == 'zip' and len(e.args) == 1 and isinstance(e.args[0], ast.Starred) \
+            and isinstance(e.args[0].value, ast.Name)
+    col_vars = set()
+    for st in ast.walk(fn):
+        if isinstance(st, ast.For) and isinstance(st.target, ast.Name) and is_columns(st.iter):
+            col_vars.add(st.target.id)
+    assigns = [st for st in ast.walk(fn) if isinstance(st, ast.Assign) and any(isinstance(t, ast.Name) and t.id == counter for t in st.targets)]
+    if not assigns:
+        return None, {'why': f'no assignment to {counter}'}
+    facts = {'constructions': [q(a.value)[:70] for a in assigns], 'column_loop_variables': sorted(col_vars)}
+    for a in assigns:
+        v = a.value
+        if not (isinstance(v, ast.Call) and isinstance(v.func, (ast.Name, ast.Attribute)) and (dotted_name(v.func) or '').split('.')[-1] in ('Counter', 'defaultdict', 'dict', 'OrderedDict')):
+            return None, {**facts, 'why': f'{counter} is not built by Counter(...)'}
+        if v.args and (dotted_name(v.func) or '').split('.')[-1] == 'Counter':
+            if not is_columns(v.args[0]):
+                e = strip(v.args[0])
+                # Counter(f(c) for c in zip(*S)) / Counter(map(f, zip(*S)))
+                return False, {**facts, 'offending': f"`{q(e)[:80]}`"}
+    stores = []
+    for st in ast.walk(fn):
+        tgts = st.targets if isinstance(st, ast.Assign) else ([st.target] if isinstance(st, ast.AugAssign) else [])
+        for t in tgts:
+            if isinstance(t, ast.Subscript) and isinstance(t.value, ast.Name) and t.value.id == counter:
+                stores.append(t.slice)
+    for c in ast.walk(fn):
+        if isinstance(c, ast.Call) and isinstance(c.func, ast.Attribute) and isinstance(c.func.value, ast.Name) and c.func.value.id == counter and c.func.attr in ('update', 'setdefault'):
+            if c.args and not is_columns(c.args[0]):
+                stores.append(c.args[0])
+    facts['incremental_keys'] = [q(k)[:60] for k in stores]
+    local = {}
+    for st in ast.walk(fn):
+        if isinstance(st, ast.Assign) and len(st.targets) == 1 and isinstance(st.targets[0], ast.Name):
+            local.setdefault(st.targets[0].id, []).append(st.value)
+    for k in stores:
+        e = strip(k)
+        if isinstance(e, ast.Name) and e.id in local and e.id not in col_vars:
+            vals = [strip(v) for v in local[e.id]]
+            if all(isinstance(v, ast.Name) and v.id in col_vars for v in vals):
+                continue
+            return False, {**facts, 'offending': f"`{e.id} = {q(local[e.id][0])[:70]}`"}
+        if not (isinstance(e, ast.Name) and e.id in col_vars):
+            return False, {**facts, 'offending': f"`{q(e)[:80]}`"}
+    if not stores and not any(a.value.args for a in assigns):
+        return None, {**facts, 'why': 'empty counter that is never filled'}
+    return True, facts
+
+
 def check_compress(ctx, rep):
     m = ctx.prog.module('torchtree.evolution.site_pattern')
     fn = m.functions.get('compress')
@@ -270,6 +331,14 @@ def check_compress(ctx, rep):
     order = [st for st in ast.walk(fn) if isinstance(st, ast.Assign) and 'count_dict' in q(st.value) and isinstance(st.targets[0], ast.Name) and st.targets[0].id != 'count_dict']
     keys_all = any(q(st.value).replace(' ', '') in ('sorted(list(count_dict.keys()))', 'sorted(count_dict.keys())', 'sorted(count_dict)', 'list(count_dict.keys())', 'list(count_dict)') for st in order)
     weights_from_counts = any('count_dict[' in q(st.value) for st in order)
+    raw, raw_facts = counter_keys_are_raw_columns(fn)
+    if raw is None:
+        rep.undecided('C01.W', 'compress::patterns-are-the-distinct-raw-columns', W, raw_facts.get('why', 'construction of the column counter not recognised'), raw_facts)
+    else:
+        rep.check('C01.W', 'compress::patterns-are-the-distinct-raw-columns', raw, W, raw_facts,
+                  f"two columns may share a pattern only when they are the same symbols taxon by taxon; here the counter is keyed by {raw_facts.get('offending')}: columns "
+                  f"that differ in their symbols are merged (one of them stands for all, with the summed count), so sites are evaluated with another site's tip vectors — "
+                  f"and which one depends on the order of the columns")
     rep.check('C01.W', 'compress::every-distinct-column-is-kept-with-its-count', all_counter and not mutated and keys_all and weights_from_counts, W,
               {'count_dict_assignments': [q(st.value)[:60] for st in assigns], 'mutations': mutated},
               "the site patterns must be every distinct column with its multiplicity (Counter over the columns, all keys, their counts as weights): a column that is "
